@@ -14,6 +14,7 @@
 #include <foonathan/memory/memory_pool_collection.hpp>
 #include <foonathan/memory/memory_stack.hpp>
 #include <foonathan/memory/static_allocator.hpp>
+#include <foonathan/memory/virtual_memory.hpp>
 
 #include "observe.hpp"
 #include "script.hpp"
@@ -110,6 +111,12 @@ namespace verif
         static constexpr const char* name = "static";
     };
 
+    struct src_virtual
+    {
+        using type = logged_blocks<fm::virtual_block_allocator>;
+        static constexpr const char* name = "virtual";
+    };
+
     template <class A, class Src, class... Pre>
     A* construct(void* where, int src, Src, Pre... pre)
     {
@@ -125,6 +132,14 @@ namespace verif
         auto storage    = ::new (mem) static_storage;
         pending_src()   = src;
         return ::new (where) A(pre..., *storage);
+    }
+
+    template <class A, class... Pre>
+    A* construct(void* where, int src, src_virtual, Pre... pre)
+    {
+        // real reserved address range (mmap); the blocks committed from it are numbered by logged_blocks
+        pending_src() = src;
+        return ::new (where) A(pre..., std::size_t(6));
     }
 
     // ---- common part -------------------------------------------------------------------------
